@@ -88,13 +88,21 @@ fn find_and_play_best_move(
     // keep looking until we are out of time
     // also add a guard to ensure we at least get a move from the search thread
     while !out_of_time(start, time_to_move_ms) || best_move.is_none() {
-        if let Ok(b) = rx.try_recv() {
-            best_move = Some(b);
-        } else {
-            thread::sleep(Duration::from_millis(1));
+        match rx.try_recv() {
+            Ok(b) => best_move = Some(b),
+            // the search ended without ever sending a move, so there is no legal move to play
+            Err(mpsc::TryRecvError::Disconnected) if best_move.is_none() => break,
+            Err(_) => thread::sleep(Duration::from_millis(1)),
         }
     }
-    let board = best_move.unwrap();
+    let board = match best_move {
+        Some(b) => b,
+        None => {
+            // checkmate or stalemate on the board, answer with a null move and keep the position
+            send_to_gui("bestmove 0000");
+            return board.clone();
+        }
+    };
     send_best_move_to_gui(&board);
     info!("{}", board.simple_board());
     board
